@@ -12,7 +12,7 @@ that lies between the compressed `IDAT`/`fdAT` bytes and the caller:
 |--------------------------------|--------------------------------------|---------------------|
 | `ZlibStream::out_buffer`       | zlib.rs:14                           | `z.bufLen`, `zHigh` |
 | `UnfilteringBuffer::data_stream` | unfiltering_buffer.rs:8            | `ub.data`           |
-| `Reader::scratch_buffer`       | mod.rs:305, resized at mod.rs:496    | `scratchLen`        |
+| `Reader::scratch_buffer`       | mod.rs:305, resized at mod.rs:505    | `scratchLen`        |
 | `to_be_discarded` (one per call) | read_decoder.rs:84, :147           | `tmpHigh`           |
 
 One `decode_image_data` call (read_decoder.rs:124) is one `fill_buf` and one `StreamingDecoder::update`
@@ -28,7 +28,7 @@ on the contents of `O` (the only place a byte value is looked at is the filter-t
 `unfilter_curr_row`).
 
 `DPOut.refused` = the Reader never performs this operation in this state (the *discipline*):
-`next_raw_interlaced_row` (mod.rs:650-669) fetches data only `while curr_row_len() < rowlen` and not
+`next_raw_interlaced_row` (mod.rs:659-678) fetches data only `while curr_row_len() < rowlen` and not
 after `consumed_and_flushed`; it unfilters only once a whole row is present; a pass row is never longer
 than the frame's row.  `DPOut.panic` = a Rust panic (explicit outcome).
 
@@ -87,14 +87,14 @@ def ZW.flush (c : ZCfg) (O : Bytes) (z : ZW) : ZFlush → Option (Bytes × Nat)
 
 /-! ## The composite state -/
 
-/-- what is fixed when a (sub)frame is started (`SubframeInfo::new`, mod.rs:684-703) -/
+/-- what is fixed when a (sub)frame is started (`SubframeInfo::new`, mod.rs:693-712) -/
 structure DPFrame where
-  /-- `subframe.rowlen = info.raw_row_length_from_width(width)` (mod.rs:698): filter byte + data -/
+  /-- `subframe.rowlen = info.raw_row_length_from_width(width)` (mod.rs:707): filter byte + data -/
   rowlen : Nat
-  /-- `output_line_size(subframe.width)` (mod.rs:368 and :496): the amount charged to `Limits` when the
+  /-- `output_line_size(subframe.width)` (mod.rs:366-367 and :505): the amount charged to `Limits` when the
       frame is started and the length the scratch row is resized to -/
   outLine : Nat
-  /-- `info.bpp_in_prediction()` (mod.rs:364) -/
+  /-- `info.bpp_in_prediction()` (mod.rs:377) -/
   bpp : Nat
 deriving Repr, DecidableEq
 
@@ -111,7 +111,7 @@ structure DP where
   limit : Nat
   /-- the current (sub)frame -/
   frame : DPFrame
-  /-- row length of the current pass (`read_row`, mod.rs:532-537) -/
+  /-- row length of the current pass (`read_row`, mod.rs:541-546) -/
   rowlen : Nat
   /-- `subframe.consumed_and_flushed` -/
   flushed : Bool
@@ -121,8 +121,12 @@ structure DP where
   tmpHigh : Nat
   /-- ghost high-water mark: most bytes one `finish_compressed_chunks` call has produced so far -/
   flushHigh : Nat
-  /-- ghost: some frame start returned `LimitsExceeded` from `reserve_bytes` (mod.rs:369) -/
-  unpaid : Bool
+  /-- `remaining_frames == 0` forced by a refused frame start or by `finish` (mod.rs:372, :573): every later
+      `next_frame`/`next_frame_info` answers `PolledAfterEndOfImage` -/
+  noFrames : Bool
+  /-- ghost: some frame start returned `LimitsExceeded` from `reserve_bytes` (mod.rs:367); the refused frame
+      was NOT installed -/
+  limitHit : Bool
 deriving Repr
 
 /-- `Decoder::read_info` (mod.rs:189-239) up to and including the first `Reader::read_until_image_data`
@@ -132,30 +136,30 @@ def DP.start (L : Nat) (fr : DPFrame) (O : Bytes) : Option DP :=
   if fr.rowlen < 2 ∨ L < fr.outLine then none
   else some { z := ZW.init, O := O, ub := UB.new, scratchLen := 0, limit := L - fr.outLine, frame := fr,
               rowlen := fr.rowlen, flushed := false, zHigh := 0, tmpHigh := 0, flushHigh := 0,
-              unpaid := false }
+              noFrames := false, limitHit := false }
 
 inductive DPOp where
   /-- `set_max_total_output` (zlib.rs:55; called from the IHDR parser, stream.rs:1688) -/
   | setMax (n : Nat)
   /-- the framing layer charges `n` bytes for something else (`Limits::reserve_bytes`, mod.rs:70) -/
   | charge (n : Nat)
-  /-- `decode_image_data(unfiltering_buffer.as_mut_vec())` (mod.rs:659-661) that appends nothing:
+  /-- `decode_image_data(unfiltering_buffer.as_mut_vec())` (mod.rs:668-670) that appends nothing:
       `as_mut_vec` compacts, then `decode_next` reports a non-data event, or `decompress` returns
       early (inflater done, zlib.rs:90), or `fill_buf` fails/has nothing -/
   | pullNone
   /-- the same with one `ZlibStream::decompress` in which the inflater wants to produce `k` bytes -/
   | pull (k : Nat)
   /-- the same with `finish_compressed_chunks` + `reset` (event `ImageDataFlushed`), then
-      `mark_subframe_as_consumed_and_flushed` (mod.rs:664); `O'` = ideal output of the next stream -/
+      `mark_subframe_as_consumed_and_flushed` (mod.rs:673); `O'` = ideal output of the next stream -/
   | pullFlush (fl : ZFlush) (O' : Bytes)
   /-- the inflater reports an error inside `decompress`/the finish loop: only
       `prepare_vec_for_appending` has happened (zlib.rs:94, :129) -/
   | zFail
-  /-- `unfilter_curr_row(rowlen)` at the end of `next_raw_interlaced_row` (mod.rs:668) -/
+  /-- `unfilter_curr_row(rowlen)` at the end of `next_raw_interlaced_row` (mod.rs:677) -/
   | row
-  /-- `read_row` at `line_number() == 0` (mod.rs:529-537): `reset_prev_row`, row length `r` of the pass -/
+  /-- `read_row` at `line_number() == 0` (mod.rs:538-546): `reset_prev_row`, row length `r` of the pass -/
   | newPass (r : Nat)
-  /-- `next_interlaced_row`/`next_row` (mod.rs:494-496): `scratch_buffer.resize(output_line_size(..))` -/
+  /-- `next_interlaced_row`/`next_row` (mod.rs:503-505): `scratch_buffer.resize(output_line_size(..))` -/
   | scratch
   /-- one `decode_image_data(&mut vec![])` of `finish_decoding_image_data` (read_decoder.rs:145-152) or
       one `decode_next_and_discard_image_data` of `read_until_end_of_input` (:83-86, :157-163) with a
@@ -163,11 +167,13 @@ inductive DPOp where
   | skip (k : Nat)
   /-- the same with `finish_compressed_chunks` + `reset` -/
   | skipFlush (fl : ZFlush) (O' : Bytes)
-  /-- `Reader::read_until_image_data` (mod.rs:360-372) once `ReadDecoder::read_until_image_data` has
-      reached the next `IDAT`/`fdAT`: new `SubframeInfo`, `UnfilteringBuffer::new()`, THEN
-      `reserve_bytes(output_line_size)`; on `LimitsExceeded` the new subframe stays installed -/
+  /-- `Reader::read_until_image_data` (mod.rs:360-383) once `ReadDecoder::read_until_image_data` has
+      reached the next `IDAT`/`fdAT`: `reserve_bytes(output_line_size)` FIRST; on success the new
+      `SubframeInfo` and `UnfilteringBuffer::new()` are installed; on `LimitsExceeded` the OLD subframe is
+      kept (`current_interlace_info = None`, `consumed_and_flushed = true`, `remaining_frames = 0`) and the
+      error is returned (repaired by 0a2b38f; the pinned tree installed the frame first: `DP.stepPinned`) -/
   | newFrame (fr : DPFrame)
-  /-- `Reader::finish` (mod.rs:557-574): `UnfilteringBuffer::new()`, `consumed_and_flushed = true`;
+  /-- `Reader::finish`: `remaining_frames = 0`, `UnfilteringBuffer::new()`, `consumed_and_flushed = true`;
       the remaining data is then skipped (`skip`/`skipFlush`) -/
   | finish
 deriving Repr
@@ -180,7 +186,7 @@ inductive DPOut where
 deriving Repr
 
 /-- `while self.unfiltering_buffer.curr_row_len() < rowlen` and `!consumed_and_flushed`
-    (mod.rs:652-653) -/
+    (mod.rs:661-662) -/
 def DP.wantsData (st : DP) : Bool := !st.flushed && decide (st.ub.currLen < st.rowlen)
 
 def DP.step (c : ZCfg) (st : DP) : DPOp → DPOut
@@ -225,17 +231,42 @@ def DP.step (c : ZCfg) (st : DP) : DPOp → DPOut
       .ok { st with z := ZW.init, O := O', flushed := true, zHigh := max st.zHigh hi,
                     tmpHigh := max st.tmpHigh bs.length, flushHigh := max st.flushHigh bs.length }
   | .newFrame fr =>
-    if !st.flushed ∨ fr.rowlen < 2 then .refused else
-    let st1 := { st with frame := fr, rowlen := fr.rowlen, ub := UB.new, flushed := false }
-    if fr.outLine ≤ st.limit then .ok { st1 with limit := st.limit - fr.outLine }
-    else .ok { st1 with unpaid := true }     -- the call returns `Err(LimitsExceeded)`
-  | .finish => .ok { st with ub := UB.new, flushed := true }
+    if !st.flushed ∨ st.noFrames ∨ fr.rowlen < 2 then .refused else
+    if fr.outLine ≤ st.limit then
+      .ok { st with frame := fr, rowlen := fr.rowlen, ub := UB.new, flushed := false,
+                    limit := st.limit - fr.outLine }
+    else
+      -- the call returns `Err(LimitsExceeded)`: nothing of the refused frame is installed
+      .ok { st with flushed := true, noFrames := true, limitHit := true }
+  | .finish => .ok { st with ub := UB.new, flushed := true, noFrames := true }
 
 def DP.run (c : ZCfg) : List DPOp → DP → DPOut
   | [], st => .ok st
   | op :: ops, st =>
     match st.step c op with
     | .ok st' => DP.run c ops st'
+    | .refused => .refused
+    | .panic => .panic
+
+/-! ## The pinned tree (before the repair 0a2b38f) -/
+
+/-- the OLD `Reader::read_until_image_data`: the new `SubframeInfo` and `UnfilteringBuffer::new()` were
+    installed BEFORE `reserve_bytes`; on `LimitsExceeded` they stayed installed and the `Reader` stayed
+    usable, so the next row call decoded the refused frame with nothing charged.  Every other operation
+    is `DP.step`. -/
+def DP.stepPinned (c : ZCfg) (st : DP) : DPOp → DPOut
+  | .newFrame fr =>
+    if !st.flushed ∨ st.noFrames ∨ fr.rowlen < 2 then .refused else
+    let st1 := { st with frame := fr, rowlen := fr.rowlen, ub := UB.new, flushed := false }
+    if fr.outLine ≤ st.limit then .ok { st1 with limit := st.limit - fr.outLine }
+    else .ok { st1 with limitHit := true }
+  | op => st.step c op
+
+def DP.runPinned (c : ZCfg) : List DPOp → DP → DPOut
+  | [], st => .ok st
+  | op :: ops, st =>
+    match st.stepPinned c op with
+    | .ok st' => DP.runPinned c ops st'
     | .refused => .refused
     | .panic => .panic
 
@@ -253,7 +284,7 @@ structure DPSizes where
   scratchLen : Nat
   limit : Nat
   flushed : Bool
-  unpaid : Bool
+  limitHit : Bool
   zHigh : Nat
   tmpHigh : Nat
   flushHigh : Nat
@@ -262,7 +293,7 @@ deriving Repr, DecidableEq
 def DP.sizes (st : DP) : DPSizes :=
   { ubLen := st.ub.data.length, prevStart := st.ub.prevStart, curStart := st.ub.curStart,
     bufLen := st.z.bufLen, outPos := st.z.hist.length, readPos := st.z.readPos,
-    scratchLen := st.scratchLen, limit := st.limit, flushed := st.flushed, unpaid := st.unpaid,
+    scratchLen := st.scratchLen, limit := st.limit, flushed := st.flushed, limitHit := st.limitHit,
     zHigh := st.zHigh, tmpHigh := st.tmpHigh, flushHigh := st.flushHigh }
 
 inductive DPObs where
@@ -281,6 +312,12 @@ def DP.runFrom (c : ZCfg) (L : Nat) (fr : DPFrame) (O : Bytes) (ops : List DPOp)
   match DP.start L fr O with
   | none => none
   | some st0 => some (DP.run c ops st0).obs
+
+/-- the same on the pinned tree's step -/
+def DP.runFromPinned (c : ZCfg) (L : Nat) (fr : DPFrame) (O : Bytes) (ops : List DPOp) : Option DPObs :=
+  match DP.start L fr O with
+  | none => none
+  | some st0 => some (DP.runPinned c ops st0).obs
 
 /-- the constant of the bounds: `2·(LOOKBACK_SIZE·4 + CHUNK_BUFFER_SIZE)` -/
 def ZCfg.window (c : ZCfg) : Nat := 2 * (c.thresh + c.chunk)
